@@ -1275,15 +1275,18 @@ fn build_add_type_annotation_action(
 
 /// A range that covers the entire source document.
 fn whole_document_range(src: &str) -> Range {
-    let (end_line, end_character) = if src.is_empty() {
-        (0, 0)
-    } else if src.ends_with('\n') {
-        (src.lines().count(), 0)
-    } else {
-        let line_count = src.lines().count();
-        let last_line_length = src.lines().last().map_or(0, |l| l.encode_utf16().count());
-        (line_count.saturating_sub(1), last_line_length)
-    };
+    // Count lines the way LSP clients do: `\n`, `\r\n` and a lone
+    // `\r` all end a line.
+    let mut end_line = 0;
+    let mut last_line_start = 0;
+    let bytes = src.as_bytes();
+    for (i, b) in bytes.iter().enumerate() {
+        if *b == b'\n' || (*b == b'\r' && bytes.get(i + 1) != Some(&b'\n')) {
+            end_line += 1;
+            last_line_start = i + 1;
+        }
+    }
+    let end_character = src[last_line_start..].encode_utf16().count();
 
     Range {
         start: Position {
